@@ -4,6 +4,7 @@
 unset COMPWA_AMPFORM_VERIF
 OUT="$(mktemp /tmp/baseline.XXXXXX.xml)"
 cd "${VERIF_REPO:-/repo}" || exit 3
+if [ -n "${VERIF_REPO:-}" ] && [ "$VERIF_REPO" != "/repo" ]; then export PYTHONPATH="$VERIF_REPO/src"; fi
 /venv/bin/python -m pytest -ra -q -p no:cacheprovider --timeout=900 --continue-on-collection-errors --junitxml="$OUT" >/tmp/baseline.$$.log 2>&1
 /venv/bin/python - "$OUT" <<'PY'
 import json, sys
